@@ -15,7 +15,7 @@ Init == keys = <<>> /\ sel = "path" /\ wh = FALSE /\ phase = "keys"
 (* dir: "asc" (implicit), "ASC" (explicit `asc`), "desc" *)
 AddKey == /\ phase = "keys" /\ Len(keys) < MaxKeys
           /\ \E c \in KeyCols, d \in {"asc", "ASC", "desc"} :
-               /\ \A i \in 1 .. Len(keys) : keys[i].col # c
+               \* a column may be repeated (by name or position): redundant, but the directions must still line up
                /\ keys' = Append(keys, [col |-> c, dir |-> d])
           /\ UNCHANGED <<sel, wh, phase>>
 Finish == /\ phase = "keys" /\ keys # <<>>
